@@ -8,10 +8,10 @@ import (
 	"go/parser"
 	"go/token"
 	"os"
-	"path/filepath"
-	"strconv"
 	"os/exec"
+	"path/filepath"
 	"sort"
+	"strconv"
 	"strings"
 
 	"github.com/zmap/zlint/v3/lint"
